@@ -97,9 +97,32 @@ def run(ctx, run):
     _stop_inclusive(ctx, run)
     _minimisation_keeps_acceptance(ctx, run)
     _enter_page_at_far_end(ctx, run, walk)
+    _finished_pass_rearms(ctx, run, nxt, sw[0])
     # the walk visits the subpage range the statistics recorded: the range must not be truncated (shared with C10)
     from . import C10
     C10._subno_range_fits(ctx, run)
+
+
+def _finished_pass_rearms(ctx, run, f, sw):
+    """When the page walk reports that the pass is complete (-1) vbi_search_next() answers NOT_FOUND and forgets the
+    direction (search->dir = 0), which is what makes the next call start a fresh pass from the start page.  Every path
+    from the case for -1 to the function's exit stores 0 into search->dir."""
+    tgt = [s for s, lab in f.edges(sw) if isinstance(lab, tuple) and lab[1] <= -1 <= lab[2]]
+    if not tgt:
+        raise AnalysisBroken("vbi_search_next: no case for the walk result -1")
+    clears = {b for b, i in flow.all_events(f) if atoms.store_to_field("vbi_search.dir", 0)(f, i)}
+    key = "RF-CORR:vbi_search_next:finished-pass-rearms"
+    bad = False
+    for t in tgt:
+        if f.exit in flow.reach_from(f, t, avoid=clears):
+            bad = True
+    if bad:
+        run.violation("RF-CORR", key, "the case for a completed pass (-1) reaches the exit without `search->dir = 0`: the next call "
+                      "does not start a new pass - further passes in the same direction find nothing and a pass in the other "
+                      "direction starts from the wrong page", "%s:%d" % (f.file, f.blocks[sw].term.get("line", f.line)),
+                      witness={"function": f.name})
+    else:
+        run.holds("RF-CORR", key, "every path from the case for -1 stores search->dir = 0 before returning", "%s:%d" % (f.file, f.line))
 
 
 def _enter_page_at_far_end(ctx, run, f):
